@@ -188,6 +188,8 @@ fn clause() -> BoxedStrategy<String> {
         4 => g::harvested_sentence().prop_map(|s| s.replace('\n', " ")),
         2 => g::mutated_sentence().prop_map(|s| s.replace('\n', " ")),
         2 => g::word_sentence().prop_map(|s| s.replace('\n', " ")),
+        // rules from the end of the alphabetical rule list (positions in packed or truncated digests)
+        1 => g::sel_str(&["It is worst than before", "He was aloud to go", "The whole entire thing broke", "It took a turn for the worst", "It was trail and error", "I want be there", "It is wide spread", "We are world wide"]),
         1 => g::sel_str(&["--and then it rained", "-- draft --> out.", "---so what", "'s the day", ") an apple", "-ish then"]),
         1 => g::sel_str(&["I could **of** done it", "their *is* an `apple`", "the the _cat_", "an [apple](x) a day", "# teh heading", "he said \"an apple\" <b>teh</b>", "#let x = [teh]", "1. could of"]),
     ]
